@@ -17,6 +17,8 @@ Self-check: PySl against CPython slicing, the order of NULL against the real SQL
 """
 import collections
 import concurrent.futures
+import datetime
+import decimal
 import itertools
 from fractions import Fraction
 
@@ -27,7 +29,7 @@ from pony.orm.core import db_session, select, desc, Optional, PrimaryKey
 
 LEVEL = 'exploration'
 
-GROUPS = [['ent', 'nest2'], ['v', 's', 'subchain'], ['vs', 'idv', 'nest1']]      # one TLC run each, in parallel
+GROUPS = [['ent', 'nest2'], ['v', 's', 'subchain'], ['vs', 'idv', 'nest1', 'p', 'day']]      # one TLC run each, in parallel
 GROUPS_THOROUGH = [['deep-ent'], ['deep-v', 'deep-vs']]                          # three methods before the terminal
 
 SIGNATURES = {
@@ -58,11 +60,15 @@ def enc_opt(x):
 class Data:
     def __init__(self, table, letters):
         self.letters = letters
-        self.rows = [(r['id'], self.val(r['v']), self.val(r['s'])) for r in table]
+        self.rows = [(r['id'], self.val(r['v']), self.val(r['s']), self.val(r['p']), self.val(r['day'])) for r in table]
 
     def val(self, x):
         if x == -1:
             return None
+        if x >= 200000:
+            return datetime.date(2020, 1, 1) + datetime.timedelta(days=x - 200000)
+        if x >= 100000:
+            return decimal.Decimal(x - 100000) / 100
         if x > 1000:
             return self.letters[x - 1001]
         return x
@@ -81,11 +87,13 @@ def make_db(data):
         id = PrimaryKey(int)
         v = Optional(int)
         s = Optional(str, nullable=True)
+        p = Optional(decimal.Decimal, 10, 2)
+        day = Optional(datetime.date)
     db.bind('sqlite', ':memory:')
     db.generate_mapping(create_tables=True)
     with db_session:
-        for i, v, s in data.rows:
-            A(id=i, v=v, s=s)
+        for i, v, s, p, day in data.rows:
+            A(id=i, v=v, s=s, p=p, day=day)
     return db
 
 
@@ -98,6 +106,10 @@ def base_query(A, proj):
         return select(a.v for a in A)
     if proj == 's':
         return select(a.s for a in A)
+    if proj == 'p':
+        return select(a.p for a in A)
+    if proj == 'day':
+        return select(a.day for a in A)
     if proj == 'vs':
         return select((a.v, a.s) for a in A)
     if proj == 'idv':
@@ -167,7 +179,7 @@ def build(A, proj, steps):
 def norm_item(proj, x):
     if proj == 'ent':
         return (x.id,) if x is not None else None
-    if proj in ('v', 's'):
+    if proj in ('v', 's', 'p', 'day'):
         return (x,)
     return tuple(x)
 
@@ -201,7 +213,7 @@ def run_terminal(db, A, proj, q, t):
     if op == 'avg': return ('value', q.avg(distinct=d))
     if op == 'min': return ('value', q.min())
     if op == 'max': return ('value', q.max())
-    if op == 'gconcat': return ('value', q.group_concat('-' if a else None, distinct=d))
+    if op == 'gconcat': return ('value', q.group_concat('|' if a else None, distinct=d))
     if op == 'insub':
         return ('items', norm_items('ent', select(z for z in A if z in q.limit(opt(a), opt(b)))[:]))
     if op == 'delete':
@@ -217,8 +229,15 @@ def run_terminal(db, A, proj, q, t):
 
 # ---------------------------------------------------------------------------------------------------
 # comparison of an actual outcome with an expected one (up to the freedom the expected outcome states)
+def typed(x):
+    """a value together with its type (Decimal('36.5') == 36.5 and '2020-01-15' are not what a date/Decimal query returns)"""
+    if isinstance(x, (tuple, list)):
+        return tuple(typed(y) for y in x)
+    return (type(x).__name__, x)
+
+
 def bag(xs):
-    return collections.Counter(xs)
+    return collections.Counter(typed(x) for x in xs)
 
 
 def matches(data, exp, act):
@@ -238,7 +257,7 @@ def matches(data, exp, act):
             return False
         want = data.items(exp['v'])
         if k == 'list':
-            return act[1] == want
+            return typed(act[1]) == typed(want)
         if k == 'bag':
             return bag(act[1]) == bag(want)
         return len(act[1]) == exp['n'] and not (bag(act[1]) - bag(want))
@@ -248,14 +267,14 @@ def matches(data, exp, act):
     if k == 'item':
         want = data.item(exp['v'][0])
         if act[0] == 'value':
-            return (act[1],) == want and act[1] is not None
+            return typed((act[1],)) == typed(want) and act[1] is not None
         if act[0] == 'none':
             return want == (None,)
-        return act[0] == 'item' and act[1] == want
+        return act[0] == 'item' and typed(act[1]) == typed(want)
     if k == 'oneof':
         if act[0] == 'none':
             return (None,) in data.items(exp['v'])
-        return act[0] == 'item' and act[1] in data.items(exp['v'])
+        return act[0] == 'item' and typed(act[1]) in [typed(x) for x in data.items(exp['v'])]
     if k == 'int':
         return act[0] == 'value' and type(act[1]) is int and act[1] == exp['n']
     if k == 'bool':
@@ -265,10 +284,18 @@ def matches(data, exp, act):
     if k == 'pieces':
         if act[0] != 'value' or not isinstance(act[1], str):
             return False
-        sep = '-' if exp['n'] else ','
-        return bag(act[1].split(sep)) == bag(str(x[0]) for x in data.items(exp['v']))
+        sep = '|' if exp['n'] else ','
+        want = [x[0] for x in data.items(exp['v'])]
+        got = act[1].split(sep)
+        if want and isinstance(want[0], decimal.Decimal):       # the database's text of a Decimal need not be str(Decimal)
+            try:
+                got = [decimal.Decimal(g) for g in got]
+            except decimal.InvalidOperation:
+                return False
+            return bag(got) == bag(want)
+        return bag(got) == bag(str(x) for x in want)
     if k == 'delete':
-        return act[0] == 'delete' and act[1] == exp['n'] and act[2] == data.items(exp['v'])
+        return act[0] == 'delete' and act[1] == exp['n'] and [tuple(x) for x in act[2]] == data.items(exp['v'])
     raise MachineryError('unknown outcome kind %r' % k)
 
 
@@ -429,7 +456,7 @@ def run(ctx):
                 'with its arguments), enumerated completely by TLC from QueryMethodsTables for the tier; it is non-trivial '
                 'when the chain has at least one step and the full result R has at least 2 items. E2 cases: every '
                 '(limit, offset, limit2, offset2) and (start, stop) over 0..5/None, each judged on lists of length 0..17',
-        'queries_built': stats['queries'], 'e1_cases_compared': stats['compared'],
+        'queries_built': stats['queries'], 'e1_cases_compared': stats['compared'], 'e1_calls_repeated_in_session': stats['repeated'],
         'e1_cases_refused_by_pony': stats['refused'], 'e1_unsupported_accepted': stats['unsupported'],
         'e1_cases_deviating_as_recorded': stats['deviating'],
         'e2_limit_cases': len(combine), 'e2_fetch_cases': len(fetch), 'e2_points_judged': judged,
@@ -474,6 +501,18 @@ def run_query(ctx, db, data, qd, stats, nontrivial, per_op):
                     core.rollback()
             if steps and qd['rlen'] >= 2:
                 nontrivial.add((proj, repr(steps), repr(t)))
+            # every call of a method gives the answer, not only the first one in a session (per-session result cache)
+            if build_exc is None and act[0] != 'exc' and t['op'] not in ('delete', 'random'):
+                try:
+                    again = run_terminal(db, A, proj, q, t)
+                except Exception as e:
+                    again = ('exc', e)
+                    core.rollback()
+                stats['repeated'] += 1
+                if typed(again[1:]) != typed(act[1:]) or again[0] != act[0]:
+                    ctx.mismatch('C24:%s:repeated-call-differs' % t['op'],
+                                 '%s: the first call in the session gives %s, the same call again %s' % (show_steps(proj, steps, t), show_act(act), show_act(again)),
+                                 {'mode': 'chain', 'proj': proj, 'steps': steps, 't': t, 'exp': exp, 'twice': True})
             if act[0] == 'exc' and isinstance(act[1], MachineryError):
                 raise act[1]
             rep = {'mode': 'chain', 'proj': proj, 'steps': steps, 't': t, 'exp': exp}
@@ -534,10 +573,15 @@ def replay(ctx, rep):
         try:
             q = build(db.A, rep['proj'], rep['steps'])
             act = run_terminal(db, db.A, rep['proj'], q, rep['t'])
+            again = run_terminal(db, db.A, rep['proj'], q, rep['t']) if rep.get('twice') else act
         except Exception as e:
-            act = ('exc', e)
+            act = again = ('exc', e)
     core.sql_debug(False)
-    print('table A(id, v, s): %r' % (data.rows,))
+    print('table A(id, v, s, p, day): %r' % (data.rows,))
+    if rep.get('twice'):
+        print('the same call again in the same session: %s' % show_act(again))
+        if act[0] != 'exc' and (again[0] != act[0] or typed(again[1:]) != typed(act[1:])):
+            ctx.violations.append('replayed')
     print('%s\n  Pony: %s\n  list semantics: %s' % (show_steps(rep['proj'], rep['steps'], rep['t']), show_act(act), show_exp(data, rep['exp'])))
     if not matches(data, rep['exp'], act):
         ctx.violations.append('replayed')
